@@ -7,7 +7,9 @@ import (
 	"errors"
 
 	ipfslog "berty.tech/go-ipfs-log"
+	"berty.tech/go-ipfs-log/accesscontroller"
 	"berty.tech/go-ipfs-log/entry"
+	"berty.tech/go-ipfs-log/entry/sorting"
 	idp "berty.tech/go-ipfs-log/identityprovider"
 	"berty.tech/go-ipfs-log/iface"
 	"berty.tech/go-ipfs-log/internal/vx"
@@ -18,16 +20,30 @@ import (
 	pb "github.com/libp2p/go-libp2p/core/crypto/pb"
 )
 
-// ---- block store ----
+var ctx = context.Background()
+
+// ---- block store used through the public LogOptions.IO / FetchOptions.IO hooks ----
+
+const (
+	faultNone   = 0
+	faultAbsent = 1 // Read returns an error
+	faultDecode = 2 // Read succeeds, DecodeRawEntry returns an error
+)
 
 type memAPI struct {
 	coreiface.CoreAPI
-	entries map[string]iface.IPFSLogEntry
-	logs    map[string]*iface.JSONLog
+	entries    map[string]iface.IPFSLogEntry
+	logs       map[string]*iface.JSONLog
+	order      []string       // hashes in write order (write journal)
+	reads      []string       // hashes requested through Read (request journal)
+	fault      map[string]int // per-block fault kind
+	failWrites int            // the n-th write (1-based) fails; 0 = never
+	writes     int
+	onWrite    func(api *memAPI, hash string, obj interface{})
 }
 
 func newMemAPI() *memAPI {
-	return &memAPI{entries: map[string]iface.IPFSLogEntry{}, logs: map[string]*iface.JSONLog{}}
+	return &memAPI{entries: map[string]iface.IPFSLogEntry{}, logs: map[string]*iface.JSONLog{}, fault: map[string]int{}}
 }
 
 type memNode struct {
@@ -35,35 +51,53 @@ type memNode struct {
 	c cid.Cid
 }
 
-// ---- IO handing out atom CIDs ----
-
+// atomIO implements iface.IO (and IOPreSign) over memAPI; content identifiers are fresh atoms,
+// i.e. collision-free by construction, with a symbolic relative order.
 type atomIO struct{ api *memAPI }
 
-func (io *atomIO) Write(ctx context.Context, ipfs coreiface.CoreAPI, obj interface{}, opts *iface.WriteOpts) (cid.Cid, error) {
+func (io *atomIO) Write(_ context.Context, _ coreiface.CoreAPI, obj interface{}, _ *iface.WriteOpts) (cid.Cid, error) {
+	api := io.api
+	api.writes++
+	if api.failWrites != 0 && api.writes == api.failWrites {
+		return cid.Undef, errors.New("write failed")
+	}
 	c := vx.FreshCid()
+	if api.onWrite != nil {
+		api.onWrite(api, c.String(), obj)
+	}
 	switch o := obj.(type) {
 	case iface.IPFSLogEntry:
 		cp := o.Copy()
 		cp.SetHash(c)
-		io.api.entries[c.String()] = cp
+		api.entries[c.String()] = cp
 	case *iface.JSONLog:
-		io.api.logs[c.String()] = o
+		api.logs[c.String()] = &iface.JSONLog{ID: o.ID, Heads: append([]cid.Cid{}, o.Heads...)}
 	}
+	api.order = append(api.order, c.String())
 	return c, nil
 }
 
-func (io *atomIO) Read(ctx context.Context, ipfs coreiface.CoreAPI, c cid.Cid) (format.Node, error) {
-	if _, ok := io.api.entries[c.String()]; ok {
+func (io *atomIO) Read(_ context.Context, _ coreiface.CoreAPI, c cid.Cid) (format.Node, error) {
+	api := io.api
+	api.reads = append(api.reads, c.String())
+	if api.fault[c.String()] == faultAbsent {
+		return nil, errors.New("block not found")
+	}
+	if _, ok := api.entries[c.String()]; ok {
 		return &memNode{c: c}, nil
 	}
-	if _, ok := io.api.logs[c.String()]; ok {
+	if _, ok := api.logs[c.String()]; ok {
 		return &memNode{c: c}, nil
 	}
-	return nil, errors.New("not found")
+	return nil, errors.New("block not found")
 }
 
-func (io *atomIO) DecodeRawEntry(node format.Node, hash cid.Cid, p idp.Interface) (iface.IPFSLogEntry, error) {
-	e, ok := io.api.entries[node.(*memNode).c.String()]
+func (io *atomIO) DecodeRawEntry(node format.Node, hash cid.Cid, _ idp.Interface) (iface.IPFSLogEntry, error) {
+	k := node.(*memNode).c.String()
+	if io.api.fault[k] == faultDecode {
+		return nil, errors.New("undecodable block")
+	}
+	e, ok := io.api.entries[k]
 	if !ok {
 		return nil, errors.New("not an entry")
 	}
@@ -77,10 +111,13 @@ func (io *atomIO) DecodeRawJSONLog(node format.Node) (*iface.JSONLog, error) {
 	if !ok {
 		return nil, errors.New("not a manifest")
 	}
-	return l, nil
+	return &iface.JSONLog{ID: l.ID, Heads: append([]cid.Cid{}, l.Heads...)}, nil
 }
 
-// ---- mock identity ----
+// PreSign: identity transformation (the default codec without link key does the same).
+func (io *atomIO) PreSign(e iface.IPFSLogEntry) (iface.IPFSLogEntry, error) { return e, nil }
+
+// ---- mock identity provider (public idp.Interface): signatures are irrelevant to the CRDT harnesses ----
 
 type mockProvider struct{}
 
@@ -92,12 +129,12 @@ func (k *mockPub) Type() pb.KeyType                              { return pb.Key
 func (k *mockPub) Equals(o crypto.Key) bool                      { return false }
 
 func (mockProvider) GetID(context.Context, *idp.CreateIdentityOptions) (string, error) { return "id", nil }
-func (mockProvider) SignIdentity(ctx context.Context, data []byte, id string) ([]byte, error) {
+func (mockProvider) SignIdentity(context.Context, []byte, string) ([]byte, error) {
 	return []byte("sig"), nil
 }
-func (mockProvider) GetType() string                      { return "mock" }
-func (mockProvider) VerifyIdentity(*idp.Identity) error   { return nil }
-func (mockProvider) Sign(ctx context.Context, identity *idp.Identity, bytes []byte) ([]byte, error) {
+func (mockProvider) GetType() string                    { return "mock" }
+func (mockProvider) VerifyIdentity(*idp.Identity) error { return nil }
+func (mockProvider) Sign(context.Context, *idp.Identity, []byte) ([]byte, error) {
 	return []byte("sig"), nil
 }
 func (mockProvider) UnmarshalPublicKey(data []byte) (crypto.PubKey, error) {
@@ -109,7 +146,64 @@ func mockIdentity(name string, pub []byte) *idp.Identity {
 		Signatures: &idp.IdentitySignature{ID: []byte("i"), PublicKey: []byte("p")}}
 }
 
-// ---- reference oracles ----
+// writer identities: W distinct public keys (single concrete bytes 1..W)
+func mockIdentities(w int) []*idp.Identity {
+	out := make([]*idp.Identity, w)
+	for i := range out {
+		out[i] = mockIdentity(string(rune('A'+i)), []byte{byte(i + 1)})
+	}
+	return out
+}
+
+// denyWriter: access controller refusing entries of one identity id (public accesscontroller.Interface).
+type denyWriter struct{ id string }
+
+func (d *denyWriter) CanAppend(e accesscontroller.LogEntry, _ idp.Interface, _ accesscontroller.CanAppendAdditionalContext) error {
+	if e.GetIdentity() != nil && e.GetIdentity().ID == d.id {
+		return errors.New("denied")
+	}
+	return nil
+}
+
+// ---- orderings ----
+
+const (
+	sortHash = 0
+	sortLWW  = 1
+	sortFWW  = 2
+)
+
+func pickSort(k int) iface.EntrySortFn {
+	switch k {
+	case sortLWW:
+		return sorting.LastWriteWins
+	case sortFWW:
+		return sorting.FirstWriteWins
+	}
+	return sorting.SortByEntryHash
+}
+
+func newLogOpt(api *memAPI, id *idp.Identity, o *ipfslog.LogOptions) *ipfslog.IPFSLog {
+	if o.ID == "" {
+		o.ID = "X"
+	}
+	if o.IO == nil {
+		o.IO = &atomIO{api: api}
+	}
+	l, err := ipfslog.NewLog(api, id, o)
+	if err != nil {
+		panic(err)
+	}
+	return l
+}
+
+func newLog(api *memAPI, id *idp.Identity, sortFn iface.EntrySortFn) *ipfslog.IPFSLog {
+	return newLogOpt(api, id, &ipfslog.LogOptions{SortFn: sortFn})
+}
+
+// ---- reference oracles (short, obviously correct; executed symbolically in the same path) ----
+
+func hstr(e iface.IPFSLogEntry) string { return e.GetHash().String() }
 
 func refHeads(es []iface.IPFSLogEntry) map[string]bool {
 	ref := map[string]bool{}
@@ -120,8 +214,8 @@ func refHeads(es []iface.IPFSLogEntry) map[string]bool {
 	}
 	out := map[string]bool{}
 	for _, e := range es {
-		if !ref[e.GetHash().String()] {
-			out[e.GetHash().String()] = true
+		if !ref[hstr(e)] {
+			out[hstr(e)] = true
 		}
 	}
 	return out
@@ -130,7 +224,15 @@ func refHeads(es []iface.IPFSLogEntry) map[string]bool {
 func hashSet(es []iface.IPFSLogEntry) map[string]bool {
 	out := map[string]bool{}
 	for _, e := range es {
-		out[e.GetHash().String()] = true
+		out[hstr(e)] = true
+	}
+	return out
+}
+
+func cidSet(cs []cid.Cid) map[string]bool {
+	out := map[string]bool{}
+	for _, c := range cs {
+		out[c.String()] = true
 	}
 	return out
 }
@@ -147,17 +249,106 @@ func sameSet(a, b map[string]bool) bool {
 	return true
 }
 
-var ctx = context.Background()
-
-func newLog(api *memAPI, id *idp.Identity, sortFn iface.EntrySortFn) *ipfslog.IPFSLog {
-	l, err := ipfslog.NewLog(api, id, &ipfslog.LogOptions{ID: "X", IO: &atomIO{api: api}, SortFn: sortFn})
-	if err != nil {
-		panic(err)
+func subset(a, b map[string]bool) bool {
+	for k := range a {
+		if !b[k] {
+			return false
+		}
 	}
-	return l
+	return true
+}
+
+func union(a, b map[string]bool) map[string]bool {
+	out := map[string]bool{}
+	for k := range a {
+		out[k] = true
+	}
+	for k := range b {
+		out[k] = true
+	}
+	return out
+}
+
+func sameSeq(a, b []iface.IPFSLogEntry) bool {
+	if len(a) != len(b) {
+		return false
+	}
+	for i := range a {
+		if hstr(a[i]) != hstr(b[i]) {
+			return false
+		}
+	}
+	return true
+}
+
+func isSubsequence(old, new []iface.IPFSLogEntry) bool {
+	j := 0
+	for _, e := range new {
+		if j < len(old) && hstr(old[j]) == hstr(e) {
+			j++
+		}
+	}
+	return j == len(old)
+}
+
+func index(es []iface.IPFSLogEntry) map[string]iface.IPFSLogEntry {
+	out := map[string]iface.IPFSLogEntry{}
+	for _, e := range es {
+		out[hstr(e)] = e
+	}
+	return out
+}
+
+// refPast: predecessor closure (along next) of the given hashes inside es, including the roots.
+func refPast(roots []string, es []iface.IPFSLogEntry) map[string]bool {
+	ix := index(es)
+	out := map[string]bool{}
+	stack := append([]string{}, roots...)
+	for len(stack) > 0 {
+		h := stack[len(stack)-1]
+		stack = stack[:len(stack)-1]
+		if out[h] {
+			continue
+		}
+		e, ok := ix[h]
+		if !ok {
+			continue
+		}
+		out[h] = true
+		for _, n := range e.GetNext() {
+			stack = append(stack, n.String())
+		}
+	}
+	return out
+}
+
+// refSorted: selection sort with cmp (ascending); only meaningful when cmp is a strict total order on es.
+// The comparator verdicts may be symbolic; selection by a symbolic minimum forks per outcome.
+func refSorted(es []iface.IPFSLogEntry, cmp iface.EntrySortFn) []iface.IPFSLogEntry {
+	rest := append([]iface.IPFSLogEntry{}, es...)
+	var out []iface.IPFSLogEntry
+	for len(rest) > 0 {
+		m := 0
+		for i := 1; i < len(rest); i++ {
+			if r, _ := cmp(rest[i], rest[m]); r < 0 {
+				m = i
+			}
+		}
+		out = append(out, rest[m])
+		rest = append(rest[:m], rest[m+1:]...)
+	}
+	return out
+}
+
+func payloads(es []iface.IPFSLogEntry) string {
+	s := ""
+	for i, e := range es {
+		if i > 0 {
+			s += ","
+		}
+		s += string(e.GetPayload())
+	}
+	return s
 }
 
 var _ = entry.NewLamportClock
-
-// PreSign: identity (needed because Entry.Verify dereferences a nil entry when the IO has no PreSign — finding F6b).
-func (io *atomIO) PreSign(e iface.IPFSLogEntry) (iface.IPFSLogEntry, error) { return e, nil }
